@@ -32,10 +32,50 @@ def setup_paths() -> None:
         sys.path.append(DEPS)
 
 
+OPT = os.environ.get("VERIF_OPT") == "1"            # this process runs the library as `python -O` would (asserts stripped, __debug__ False)
+OPT_PASS = os.environ.get("VERIF_OPT_PASS") == "1"  # ... as the secondary pass of a check: one job in three of every sharded engine
+_OPT_INSTALLED = False
+
+
+def _install_optimizing_loader():
+    """Modules of the goodwe package are compiled with optimize=1 - exactly what `python -O` / PYTHONOPTIMIZE=1 does to them - while
+    the harness, Hypothesis and the standard library run normally.  An environment dimension like debug logging: nothing the
+    properties say may depend on it."""
+    global _OPT_INSTALLED
+    if _OPT_INSTALLED:
+        return
+    import importlib.abc
+    import importlib.machinery
+    import importlib.util
+
+    class _OptLoader(importlib.machinery.SourceFileLoader):
+        def get_code(self, fullname):
+            path = self.get_filename(fullname)
+            return compile(self.get_data(path), path, "exec", dont_inherit=True, optimize=1)
+
+    class _OptFinder(importlib.abc.MetaPathFinder):
+        def find_spec(self, fullname, path, target=None):
+            if fullname != "goodwe" and not fullname.startswith("goodwe."):
+                return None
+            base = os.path.join(os.path.abspath(REPO), *fullname.split("."))
+            if os.path.isdir(base):
+                file = os.path.join(base, "__init__.py")
+                return importlib.util.spec_from_file_location(fullname, file, loader=_OptLoader(fullname, file), submodule_search_locations=[base])
+            file = base + ".py"
+            if os.path.exists(file):
+                return importlib.util.spec_from_file_location(fullname, file, loader=_OptLoader(fullname, file))
+            return None
+
+    sys.meta_path.insert(0, _OptFinder())
+    _OPT_INSTALLED = True
+
+
 def import_goodwe(fresh: bool = False):
     """Import goodwe from REPO (the current working tree). Library logging is silenced: it logs full
     tracebacks through logging's last-resort handler, which is noise and dominates run time."""
     logging.disable(logging.CRITICAL)
+    if OPT:
+        _install_optimizing_loader()
     if fresh:
         for name in [m for m in sys.modules if m == "goodwe" or m.startswith("goodwe.")]:
             del sys.modules[name]
@@ -193,6 +233,8 @@ class Acc:
             case_j = dict(case_j, _debug_logging=True)      # part of the case: replay switches it on again
         if WARN_ERR and isinstance(case_j, dict):
             case_j = dict(case_j, _warnings_as_errors=True)
+        if OPT and isinstance(case_j, dict):
+            case_j = dict(case_j, _python_O=True)           # replay re-executes itself with the library compiled as under python -O
         size = len(json.dumps(case_j))
         old = self.viol.get(key)
         if old is None or size < old["size"]:
@@ -271,6 +313,10 @@ class Ctx:
             return
         procs = min(procs or NCPU, len(jobs))
         jobs = list(enumerate(jobs))
+        if OPT_PASS:
+            jobs = [j for j in jobs if not job_logging(j[0]) and not job_warnings_as_errors(j[0])]
+            if not jobs:
+                return
         if procs <= 1:
             for j in jobs:
                 self.acc.merge(_call(fn, j))
@@ -356,6 +402,8 @@ def _call(fn, indexed_job):
         warnings_as_errors(False)
         wctx.__exit__(None, None, None)
     _linecov_dump()
+    if OPT and isinstance(res, Acc):
+        res.cls("jobs-under-python-O")
     if job_logging(index) and isinstance(res, Acc):
         res.cls("jobs-with-debug-logging")
     if job_warnings_as_errors(index) and isinstance(res, Acc):
@@ -472,7 +520,9 @@ def finish(ctx: Ctx, *, level: str, rule: str, assumptions, exhaustive: bool | N
         "coverage": coverage, "assumptions": list(assumptions) + [
             "environment dimension: one job in three of every sharded engine runs with the 'goodwe' logger at DEBUG and a handler that "
             "formats every record (class jobs-with-debug-logging); a violation found there carries _debug_logging in its replay case; "
-            "another third runs with warnings attributed to the library's modules turned into errors (python -W error; class jobs-with-warnings-as-errors)"],
+            "another third runs with warnings attributed to the library's modules turned into errors (python -W error; class jobs-with-warnings-as-errors); "
+            "the remaining third is run a second time in a child process in which the modules of the goodwe package are compiled with optimize=1, "
+            "as under python -O (class jobs-under-python-O; replay cases carry _python_O)"],
         "wall_s": round(wall, 2),
         "violations": n_viol,
     }
@@ -540,6 +590,8 @@ def warnings_as_errors(on: bool):
 def job_warnings_as_errors(index: int) -> bool:
     """Another third of the jobs runs with warnings attributed to the library turned into errors (python -W error)."""
     return ((index + 1) * 2654435761 >> 9) % 3 == 1
+    # (the remaining third runs in the plain environment - and once more in the secondary pass with the library compiled as under
+    #  `python -O`, see _install_optimizing_loader)
 
 
 _SYNC_LOOP = {}
@@ -558,14 +610,43 @@ def run_sync(coro):
         asyncio._set_running_loop(loop)
     try:
         try:
-            coro.send(None)
+            fut = coro.send(None)
         except StopIteration as st:
             return st.value
+        if nested:
+            coro.close()
+            raise HarnessError("coroutine suspended on the direct path (inside a running loop)")
+        # The library suspended although the simulated transport answers synchronously (e.g. it wrapped the request in a task):
+        # legitimate - drive the coroutine by hand, letting the loop run whenever it waits for something.
+        for _ in range(10000):
+            asyncio._set_running_loop(None)
+            try:
+                if fut is not None and hasattr(fut, "_asyncio_future_blocking"):
+                    fut._asyncio_future_blocking = False
+                    loop.run_until_complete(asyncio.wait_for(_swallow(fut), timeout=5))
+                else:
+                    loop.run_until_complete(asyncio.sleep(0))
+            except asyncio.TimeoutError:
+                coro.close()
+                raise HarnessError("coroutine suspended on the direct path and what it waits for never completes")
+            asyncio._set_running_loop(loop)
+            try:
+                fut = coro.send(None)
+            except StopIteration as st:
+                return st.value
         coro.close()
-        raise HarnessError("coroutine suspended on the direct path")
+        raise HarnessError("coroutine keeps suspending on the direct path")
     finally:
         if not nested:
             asyncio._set_running_loop(None)
+
+
+async def _swallow(fut):
+    import asyncio
+    try:
+        await asyncio.shield(fut)
+    except BaseException:
+        pass
 
 
 # ---------------------------------------------------------------------------------------------
